@@ -599,6 +599,8 @@ class PrecipitateModel (PrecipitateBase):
             #Also revert the PSD in case this function was called to adjust for the new PSD bins
             else:
                 growthRate = self.growth[p]
+                xEqAlpha = Y.xEqAlpha[0,p]
+                xEqBeta = Y.xEqBeta[0,p]
         else:
             growth, xAlpha, xBeta, xEqAlpha, xEqBeta = growth_result
             #Update interfacial composition for each precipitate size
